@@ -159,6 +159,28 @@ class AddTrunc(Op):
                     p = T.tp_from_inst(m, target + rng.choice([0, -1, 1]), p[0], p[7], p[8],
                                        use24=rng.random() < 0.2)
             yield (m, p, t)
+        # month ends x day-of-month targets 28..31; year ends x day 365/366; week-year ends x week 52/53
+        for m in (["greg", "d360"] if tier == "quick" else oracle.MODES):
+            for y in (2019, 2020):
+                for mo in range(1, 13):
+                    ml = oracle.month_len(m, y, mo)
+                    for d in sorted(set([1, 28, 29, 30, 31, ml]) & set(range(1, ml + 1))):
+                        for target in (28, 29, 30, 31):
+                            if target <= max(oracle.month_tab(m, True)):
+                                yield (m, ("c", y, mo, d, 5, 7, 9, 0, 0),
+                                       (None, None, target, None, None, None, None, None, None))
+                yl = oracle.year_len(m, y)
+                for doy in (1, 59, 60, yl - 1, yl):
+                    for target in (1, 60, 365, 366):
+                        if target <= (366 if m in ("greg", "d366") else yl):
+                            yield (m, ("o", y, doy, 0, 23, 59, 59, 0, 30),
+                                   (None, None, None, target, None, None, None, None, None))
+                wiy = oracle.weeks_in_year(m, y)
+                for w in (1, wiy - 1, wiy):
+                    for target in (1, 52, 53):
+                        if target <= (52 if m == "d360" else 53):
+                            yield (m, ("w", y, w, 3, 0, 0, 1, -5, -45),
+                                   (target, 3, None, None, None, None, None, None, None))
         if tier != "quick":
             for m in gens.shard_filter(oracle.MODES, self.shard):
                 base = ("c", 2021, 3, 1, 10, 0, 0, 0, 0)
